@@ -54,6 +54,7 @@ def main(pid):
     mobs = vlib.impl_map("drv_extract", "run_markup_sessions", mitems, env=env)
     docs = docs + [m["markup"] for m in mitems]
     obs = obs + mobs
+    all_items = items + mitems
     ev.cov["markup_sessions"] = len(mobs)
     shutil.rmtree(hs_dir, ignore_errors=True)
     # trace validation in chunks
@@ -101,7 +102,10 @@ def main(pid):
             exc = e["raised"].split(":")[0]
             vd.violation("C04.noraise", {"text": text, "call": e["ev"], "tokenizer": cfgd.get("tok"), "remove_ambiguous": cfgd.get("ra"),
                                          "mode": e.get("mode"), "raised": e["raised"]},
-                         {"clause": "C04.noraise", "call": e["ev"], "exception": exc, "tokenizer": cfgd.get("tok")})
+                         {"clause": "C04.noraise", "call": e["ev"], "exception": exc, "tokenizer": cfgd.get("tok")},
+                         judge=vlib.J("Trace_Eyecite", "Trace_Eyecite.cfg", obs[ix]),
+                         rerun=(vlib.R("drv_extract", "run_markup_sessions", all_items[ix], hs_cache=True) if "markup" in all_items[ix]
+                                else vlib.R("drv_extract", "run_pipeline", all_items[ix], hs_cache=True)))
         else:
             vd.spec_drift("Eyecite", f"session rejected at event {l} ({e.get('ev')}) text={text[:80]!r} event={str(e)[:200]}")
     ev.sample({"text": docs[7], "events": [(e["ev"], e.get("tok"), e.get("mode"), e["raised"]) for e in obs[7]["events"][:6]]})
